@@ -445,6 +445,7 @@ func boinv(b *TimeoutBooster) bool { return b != nil && past(b.lastBoost) }
 //@           (!m.useStaticTimeout && m.resendTimeout >= minimumResendTimeout && m.resendBooster.boostCount == 0 &&
 //@            m.resendBooster.originalTimeout == m.resendTimeout)
 //@   ensures forall(0, 256, func(k int) bool { return implies(has(m.sentTimes, uint8(k)), old(has(m.sentTimes, uint8(k)))) })
+//@   ensures @C20 implies(!m.useStaticTimeout && is[*PacketACK](msg), !has(m.sentTimes, as[*PacketACK](msg).Seq))
 
 //@ func (m *TimeoutManager) GetResendTimeout() (r time.Duration)
 //@   props C20 C18
@@ -655,7 +656,7 @@ func wireGrew2(oldLen int, b0, b1 uint8) bool {
 //@   ensures closed(t.quit) && t.isActive == 0
 
 //@ func (g *GoBackNConn) receivePacketsForever() (err error)
-//@   props C01 C07 C09 C12 C18
+//@   props C01 C07 C09 C12 C14 C18
 //@   acquires TimeoutManager.mu, TimeoutManager.latestSentSYNTimeMu, TimeoutManager.sentTimesMu, TimeoutBooster.mu, queue.baseMtx, queue.topMtx, syncer.mu, IntervalAwareForceTicker.lastTimedTickMtx, IntervalAwareForceTicker.resetMtx
 //@   role recv
 //@   requires ginv(g) && gstarted(g) && !closed(g.remoteClosed)
@@ -671,6 +672,9 @@ func wireGrew2(oldLen int, b0, b1 uint8) bool {
 //@   loop 0 step @C01 forall(old(nsent[*PacketData]()), nsent[*PacketData](), func(i int) bool {
 //@          return implies(senton(i, g.recvDataChan),
 //@              sentval[*PacketData](i) != nil && sentval[*PacketData](i).Seq == old(g.recvSeq) && !sentval[*PacketData](i).IsPing) })
+//@   loop 0 step @C01,C14 implies(g.recvSeq != old(g.recvSeq) && is[*PacketData](msg) && !as[*PacketData](msg).IsPing,
+//@          nsenton(g.recvDataChan) == old(nsenton(g.recvDataChan))+1 && sentval[*PacketData](nsent[*PacketData]()-1) == as[*PacketData](msg))
+//@   loop 0 step @C01 implies(g.recvSeq != old(g.recvSeq), is[*PacketData](msg) && as[*PacketData](msg).Seq == old(g.recvSeq))
 //@   loop 0 step @C01 implies(g.recvSeq != old(g.recvSeq), wireGrew2(old(wirelen()), ACK, old(g.recvSeq)))
 //@   loop 0 step @C01 implies(g.recvSeq == old(g.recvSeq), wirelen() == old(wirelen()) || wireGrew2(old(wirelen()), NACK, g.recvSeq))
 //@   loop 0 step @C01,C09 g.sendQueue.sequenceTop == old(g.sendQueue.sequenceTop)
